@@ -196,6 +196,10 @@ def check(run, prog, tier):
         run.ob("K3", f"{fn.qual}:echo", bad is None, loc(fn), bad or f"{name} echoes service, instance, major version, eventgroup id and counter; TTL {'as requested' if want_ttl is None else '0'}; type SubscribeAck")
         run.ob("K3", f"{fn.qual}:no-options", not any(k.startswith("option") for k in out), loc(fn), "acknowledgements carry no options", nontrivial=False)
 
+    # every entry handed to queue_send is transmitted exactly once (C15 rule set as supporting obligations)
+    from .C15 import queue_exactly_once
+    queue_exactly_once(run, prog, tier, "K5")
+
     # ------------------------------------------------------------------ K4 multicast gate
     smr = prog.lookup_method(PROTO, "sd_message_received")
     run.analysed(smr)
